@@ -36,7 +36,7 @@ MANIFEST = {
 EXPLANATION = MANIFEST["level_text"]
 TRUSTED = [
     "pyvc VC generator; its struct model (little-endian fixed-width fields as a bijection range <-> n bytes, DESIGN §3.1) and bytes slicing model",
-    "z3 5.1.0 sequence solver / cvc5 1.0.3 --strings-exp",
+    "z3 5.1.0 sequence solver / cvc5 1.4.0 --strings-exp",
     "pyarrow IPC writer contract (lib_httpcaps.py): writes append bytes to the sink, tell() is the number appended",
 ]
 ASSUMPTIONS = [
